@@ -62,8 +62,11 @@ type Case struct {
 	Clauses []*rt.Term `json:"clauses"`
 	Binds   [][]Bind   `json:"binds"`
 	Reverse bool       `json:"reverse,omitempty"` // assert path: asserta in reverse order instead of assertz in order
-	DQ      string     `json:"dq"`                // double_quotes flag in force: chars | codes
-	Probes  []*rt.Term `json:"probes"`
+	// Twice: on the assert path every clause is added twice from one variable (C = Clause, assertz(C), assertz(C)):
+	// two stored clauses that come from one term instance are still two clauses
+	Twice  bool       `json:"twice,omitempty"`
+	DQ     string     `json:"dq"` // double_quotes flag in force: chars | codes
+	Probes []*rt.Term `json:"probes"`
 }
 
 func (c Case) mode() string {
@@ -110,6 +113,12 @@ func (c Case) assertQuery(i int) string {
 	op := "assertz"
 	if c.Reverse {
 		op = "asserta"
+	}
+	if c.Twice {
+		cv := rt.V(77)
+		names[77] = "TheClause"
+		gs = append(gs, gen.TextStr(rt.C("=", cv, cl), names), gen.TextStr(rt.C(op, cv), names), gen.TextStr(rt.C(op, cv), names))
+		return strings.Join(gs, ", ") + "."
 	}
 	gs = append(gs, gen.TextStr(rt.C(op, cl), names))
 	return strings.Join(gs, ", ") + "."
@@ -334,6 +343,7 @@ func genCase() *rapid.Generator[Case] {
 			}
 		}
 		c.Reverse = x.p(30, "reverse")
+		c.Twice = x.p(15, "twice")
 		c.DQ = []string{"chars", "codes"}[x.n(0, 1, "dq")]
 		for _, s := range sigs {
 			args := make([]*rt.Term, s.arity)
@@ -421,7 +431,14 @@ func check(c Case) (st stats, err error) {
 				}
 			}
 		}
-		if err := verify(c, exp, i, path, &st); err != nil {
+		pexp := exp
+		if path == "assert" && c.Twice {
+			pexp = nil
+			for _, e := range exp {
+				pexp = append(pexp, e, e)
+			}
+		}
+		if err := verify(c, pexp, i, path, &st); err != nil {
 			return st, err
 		}
 	}
